@@ -87,7 +87,7 @@ def run(tier):
     nbig = 30 if thorough else 9
     for i in range(nbig):
         nk = rng.choice([20, 60, 200])
-        nt = rng.randrange(2, 9) if i % 3 else rng.choice([1, 9, 16, 33, 70])   # one table; more tables than a small heap holds; more than 64
+        nt = rng.randrange(2, 9) if i % 3 else [70, 1, 33, 9, 16][(i // 3) % 5]   # one table; more tables than a small heap holds; more than 64
         keys = concrete.key_family(rng.choice(["empty0", "be4", "ascii", "nonutf8"]), nk, rng)
         toks = ["v%d" % (t + 1) for t in range(nt)]
         vals = concrete.value_family(rng.choice(concrete.VALUE_FAMILIES), toks, rng)
